@@ -16,7 +16,7 @@ Driver for C39: runs the part-set model with `H := SHA-256` on op lines.
 
 mods (applied left to right): idx=<int> pidx=<int> ptot=<int> bytes=<hex> leaf=<hex>
   flipb=<pos>:<mask> flipl=<pos>:<mask> flipa=<k>:<pos>:<mask> dropa adda=<hex>
-  proof=<j> data=<j> nil
+  proof=<j> data=<j> releaf (leafHash := leafHash(bytes)) nil
 -/
 namespace GnoVerif.Drive.C39
 open GnoVerif GnoVerif.Kit GnoVerif.C39
@@ -83,6 +83,7 @@ def applyMod (src : List Part) (p : Option Part) (m : String) : Option (Option P
                    else let i := k % au.length; au.set i (flipAt (au.getD i []) pos (UInt8.ofNat mask))
         some (some { p with proof := { p.proof with aunts := au' } })
       | _ => none
+    | "releaf" => some (some { p with proof := { p.proof with leafHash := leafHash H p.bytes } })
     | "dropa" => some (some { p with proof := { p.proof with aunts := p.proof.aunts.dropLast } })
     | "adda" => (hexToBytes v).map fun b => some { p with proof := { p.proof with aunts := p.proof.aunts ++ [b] } }
     | "proof" => match parseNat v with
